@@ -244,8 +244,10 @@ func (c *Classifier) hasValidText(e *html.Node) bool {
 func (c *Classifier) hasOneOfElements(elements []*html.Node, tags map[string]bool) bool {
 	for _, element := range elements {
 		tagName := dom.TagName(element)
-		if value, exist := tags[tagName]; exist {
-			return !value || c.hasValidText(element)
+		// An element that needs text but has none (the empty corner cell of a
+		// cross-tab) says nothing about the other elements.
+		if value, exist := tags[tagName]; exist && (!value || c.hasValidText(element)) {
+			return true
 		}
 	}
 	return false
